@@ -612,6 +612,11 @@ def run(tier, seed, only=None):
                     refnn = ("int", (Ln.t / Rn.t) if opname == "try_floordiv" else z3.SRem(Ln.t, Rn.t), Rn.t == 0,
                              "operands >= 0 and < 2^31: floor == truncation")
                     check_values(nn, "@nonneg<2^31", refnn)
+                    if lv == "Int" and rv == "Int":
+                        # both operands negative: the quotient is positive, so floor == truncation again, and Python's
+                        # modulo (sign of the divisor) equals the truncating remainder (sign of the dividend)
+                        neg = [a.payload["Int"][0].t < 0, b.payload["Int"][0].t < 0]
+                        check_values(neg, "@bothneg", ("int", refnn[1], Rn.t == 0, "operands < 0: floor == truncation"))
             return I
         def unwrap_result(val):
             """Option<ValueObj> or Result<ValueObj,_> -> (inner ValueObj, condition that it is Some/Ok)"""
